@@ -8,7 +8,7 @@
      Bignums' bigZ (every IEEE double is such a number; + and * are exact), for
      the tolerance correspondence evaluated by vm_compute.
    Plain stdlib style; no proofs about the executable instance are claimed. *)
-From Coq Require Import ZArith List Bool.
+From Coq Require Import ZArith List Bool PrimFloat FloatOps SpecFloat.
 From Bignums Require Import BigZ.
 Import ListNotations.
 
@@ -138,8 +138,17 @@ Definition LOps : MxOps := {|
 (* comparison helpers for the generated case files                            *)
 (* ------------------------------------------------------------------------ *)
 
-Definition lmx_of (a : list (list (Z * Z))) : lmx := map (map dyz) a.
-Definition lomx_of (a : list (list (option (Z * Z)))) : lomx := map (map (option_map dyz)) a.
+(* an IEEE double is exactly the dyadic number (-1)^s m 2^e given by Coq's specification of binary64;
+   NaN and the infinities have no value *)
+Definition dyf (x : float) : option dy :=
+  match Prim2SF x with
+  | S754_zero _ => Some d0
+  | S754_finite s m e => Some (Dy (BigZ.of_Z (if s then Z.neg m else Z.pos m)) e)
+  | _ => None
+  end.
+Definition dyf0 (x : float) : dy := match dyf x with Some d => d | None => d0 end.
+Definition lmx_of (a : list (list float)) : lmx := map (map dyf0) a.
+Definition lomx_of (a : list (list float)) : lomx := map (map dyf) a.
 
 (* |a - b| <= tol * (1 + |b|) *)
 Definition dclose (tol a b : dy) : bool := dleb (dabs (dsub a b)) (dmul tol (dadd d1 (dabs b))).
